@@ -208,7 +208,10 @@ class Adapter:
             h.remove_node(n)
 
     def r_remove_nodes(self, h, ns, keep):
-        h.remove_nodes(list(ns), keep_edges=keep)
+        if keep:
+            h.remove_nodes(list(ns), keep_edges=True)
+        else:
+            h.remove_nodes(list(ns))   # the documented default drops the incident hyperedges
 
     def r_set_node_metadata(self, h, n, meta):
         h.set_node_metadata(n, meta)
@@ -229,6 +232,10 @@ class Adapter:
 
     def probe_of_key(self, key):
         raise NotImplementedError
+
+    def sibling_keys(self, key):
+        """Keys that a confused implementation could mistake for `key` (asked about as well)."""
+        return []
 
     def extra_checks(self, h, model, U, step, ctx, final):
         """Derived-object checks (snapshots, aggregation...)."""
@@ -538,6 +545,11 @@ def build_initial(ad, case, U):
                 toks.add(ad.batch_dup_token(r))
                 uniq.append(r)
         recs = uniq
+    if recs and not (weighted and init["weights"] is not None):
+        # the constructor is handed a hyperedge it already got, spelled in another node order
+        # (no weights given: an insertion like any other -- weight summed / idempotent)
+        for pick, perm in init.get("repeats") or []:
+            recs.append(ad.record_of_key(ad.key_of(recs[pick % len(recs)]), perm))
     if recs:
         if weighted and init["weights"] is not None:
             ws = (init["weights"] * len(recs))[: len(recs)]
@@ -608,15 +620,19 @@ def check_history(ad, case, ctx):
     probes = []
 
     def note_probe(rec):
-        p = ad.probe_of_key(ad.key_of(rec))
-        if p not in probes and len(probes) < 40:
-            probes.append(p)
+        key = ad.key_of(rec)
+        for p in [ad.probe_of_key(key)] + [ad.probe_of_key(k) for k in ad.sibling_keys(key)]:
+            if p not in probes and len(probes) < 40:
+                probes.append(p)
 
     trace = [{"init": desc0}]
     ctx.trace = trace
     ad.recent_recs, ad.recent_nodes = [], []
     frozen = []  # (object, model, obs) of originals left behind by copy()
     cur_obs = check_against_model(ad, h, model, U, probes, "construction")
+    keys0 = [ad.key_of(r) for r in desc0["records"]]
+    if len(set(keys0)) < len(keys0):
+        ctx.label("constructor_got_a_hyperedge_twice")
     if ad.extra_checks(h, model, U, -1, ctx, final=False):
         _unchanged(ad, h, U, probes, cur_obs, "construction")
     seen_removal = inserted_after = reinsertion = False
@@ -804,7 +820,9 @@ def op_strategy(draw, weighted, kinds, t_strategy=None, clear=True):
     field = st.sampled_from(S.ATTRS)
     # operations on hyperedges / nodes mostly aim at existing ones (the rest are
     # intended rejections or fresh insertions)
-    e_exist = edge_spec(["existing"] * 4 + ["fresh"], t_strategy)
+    # "variant": an existing node set at ANOTHER coordinate (reversed direction, other time,
+    # other layer): removals / updates aimed there must be rejected, not redirected
+    e_exist = edge_spec(["existing"] * 6 + ["fresh", "variant"], t_strategy)
     e_mixed = edge_spec(["existing", "fresh"] * 2 + ["variant"], t_strategy)
     op = {"op": k}
     if k == "add_node":
@@ -815,7 +833,8 @@ def op_strategy(draw, weighted, kinds, t_strategy=None, clear=True):
     elif k == "add_edge":
         op.update(edge=draw(e_mixed), w=draw(weight_for(weighted)), meta=draw(S.opt_metadata()))
     elif k == "add_edges":
-        ws = (st.one_of(st.none(), st.lists(st.integers(1, 9), min_size=4, max_size=4))
+        wv = st.one_of(st.integers(1, 9), st.integers(1, 9), st.sampled_from([0, 0.5, 2.5]))
+        ws = (st.one_of(st.none(), st.lists(wv, min_size=4, max_size=4))
               if weighted else st.none())
         op.update(edges=draw(st.lists(e_mixed, min_size=1, max_size=4)), ws=draw(ws),
                   short_weights=draw(st.integers(0, 9)) == 9,
@@ -881,11 +900,15 @@ def histories(draw, max_steps, kinds=None, t_strategy=None, clear=True,
     if with_init:
         init = {
             "edges": draw(st.lists(edge_spec(["fresh"], init_t_strategy), max_size=5)),
-            "weights": draw(st.one_of(st.none(), st.lists(st.integers(1, 9), min_size=1, max_size=5))),
+            "weights": draw(st.one_of(st.none(), st.lists(
+                st.one_of(st.integers(1, 9), st.integers(1, 9), st.sampled_from([0, 0.5, 2.5])),
+                min_size=1, max_size=5))),
             "node_meta": draw(st.one_of(st.none(), st.lists(st.tuples(idx, S.metadata()), max_size=3))),
             "edge_meta": draw(st.one_of(st.none(), st.lists(S.metadata(), max_size=5))),
             "hg_meta": draw(st.one_of(st.none(), S.metadata())),
+            "repeats": draw(st.lists(st.tuples(sel, sel), max_size=2)) if draw(st.booleans()) else [],
         }
+        init["repeats"] = [list(t) for t in init["repeats"]]
         if init["node_meta"] is not None:
             init["node_meta"] = [list(t) for t in init["node_meta"]]
     min_steps = draw(st.sampled_from([1, 8, 16]))
